@@ -8,6 +8,8 @@ SRCS = [core.REPO + "/igris/container/dlist.cpp", core.REPO + "/igris/sync/syslo
 def eff_str(e):
     if e[0] == "none":
         return "none"
+    if e[0] == "exec2":
+        return "exec2"
     if e[0] == "unplan":
         return "unplan %d" % e[1]
     return "plan %d %d %d" % (e[1], e[2], e[3])
@@ -68,6 +70,26 @@ def random_tm(rng, nt, nops):
     return lines
 
 
+def random_two(rng, nt, nt2, nops):
+    """two managers of the same type: timers of the first run exec(now) of the second from inside their callbacks (a fast tick manager
+    driving a slow one); the second is also planned, unplanned and executed directly"""
+    lines = ["R tm %d %s %d" % (nt, time_map(rng), nt2)]
+    now = 0
+    for _ in range(nops):
+        r = rng.random()
+        t = rng.randrange(1, nt + 1); t2 = rng.randrange(1, nt2 + 1)
+        if r < 0.2: lines.append("Plan %d %d %d" % (t, now + rng.choice([0, 0, 1, 2, -3]), rng.choice([1, 1, 2, 3, 5])))
+        elif r < 0.45: lines.append("Plan2 %d %d %d" % (t2, now + rng.choice([0, 0, 1, 2, 5, -3]), rng.choice([1, 1, 2, 3, 5, 10])))
+        elif r < 0.5: lines.append("Unplan2 %d" % t2)
+        elif r < 0.55: lines.append("Unplan %d" % t)
+        elif r < 0.7: lines.append("SetCb %d %s" % (t, rng.choice(["exec2", "exec2", "exec2", "none", "unplan %d" % rng.randrange(1, nt + 1)])))
+        elif r < 0.78:
+            now += rng.choice([0, 1, 2]); lines.append("Exec2 %d" % now)
+        else:
+            now += rng.choice([0, 1, 1, 2, 3, 5, 10]); lines.append("Exec %d" % now)
+    return lines
+
+
 def random_st(rng, nops):
     lines = ["R st"]
     now = 0
@@ -109,6 +131,8 @@ def check(ctx):
         rnd += random_tm(ctx.rng, ctx.rng.randrange(1, 7), 60)
         if i % 5 == 0:
             rnd += random_st(ctx.rng, 40)
+        if i % 4 == 1:
+            rnd += random_two(ctx.rng, ctx.rng.randrange(1, 4), ctx.rng.randrange(1, 5), 50)
     t1 = ctx.drive(drv, script, "timers_cover")
     t2 = ctx.drive(drv, rnd, "timers_random")
     bad = ctx.judge("TimersTrace", [t1, t2])
@@ -123,7 +147,7 @@ def check(ctx):
             w = ln.split()
             if w[0] == "R" and w[1] == "tm":
                 sc = ctx.rng.choice([0, 0, 3, 10, 20]); m = ctx.rng.choice([1, 2, 3, 4, 5]); j = ctx.rng.choice([3, 100, 2000, 40000])
-                ln = "R tm %s %d %d" % (w[2], sc, m * 2 ** 31 - j * 2 ** sc)
+                ln = "R tm %s %d %d" % (w[2], sc, m * 2 ** 31 - j * 2 ** sc) + (" " + w[5] if len(w) > 5 else "")
             out.append(ln)
         return out
     keep = [l for l in remap(script[: len(script) // 2] + rnd[: len(rnd) // 2]) if l[0] != "S" or l.startswith("SetCb")]
@@ -147,7 +171,11 @@ def replay(ctx, path):
     lines = []
     for e in d["execution"]:
         n = e["e"]
-        if n == "Reset": lines.append("R %s %d" % (e["kind"], e["nt"]) + (" %d %d" % (e["scale"], e["base_hi"] * 2 ** 31 + e["base_lo"]) if "scale" in e else ""))
+        if n == "Reset": lines.append("R %s %d" % (e["kind"], e["nt"]) + (" %d %d %d" % (e["scale"], e["base_hi"] * 2 ** 31 + e["base_lo"], e.get("nt2", 0)) if "scale" in e else ""))
+        elif n == "Plan2": lines.append("Plan2 %d %d %d" % (e["t"], e["st"], e["iv"]))
+        elif n == "Unplan2": lines.append("Unplan2 %d" % e["t"])
+        elif n == "Exec2":
+            if not e.get("from_callback"): lines.append("Exec2 %d" % e["now"])
         elif n == "Plan": lines.append("Plan %d %d %d" % (e["t"], e["st"], e["iv"]))
         elif n in ("Replan", "Unplan"): lines.append("%s %d" % (n, e["t"]))
         elif n == "SetCb": lines.append("SetCb %d %s" % (e["t"], eff_str([e["k"], e["k2"], e["ds"], e["iv"]])))
